@@ -154,13 +154,23 @@ def reanchor(mirror_text, mirror_toks, src_text, src_toks):
         if tag == 'equal':
             for d in range(i2 - i1): b2s[i1 + d] = j1 + d
     place = {}   # src token index -> list of ann tokens to insert BEFORE it (len(src) = at end)
+    displaced = 0
     for bi, toks in chunks.items():
         if bi in b2s: j = b2s[bi]
         elif bi == len(base) and (bi == 0 or (bi - 1) in b2s): j = len(src_toks)
         elif bi > 0 and (bi - 1) in b2s: j = b2s[bi - 1] + 1
         elif bi == 0: j = 0
         else:
-            raise ExtractError('merge conflict: both neighbours of an annotation were rewritten (mirror line %d)' % toks[0].line)
+            # both neighbours were rewritten: hang the insertion behind the nearest surviving token to its left that ends a
+            # statement or block (`;`, `{`, `}`); if there is none the merge is a conflict
+            l = bi - 1
+            while l >= 0 and not (l in b2s and btxt[l] in (';', '{', '}')): l -= 1
+            if l < 0:
+                raise ExtractError('merge conflict: no surviving anchor for an annotation (mirror line %d)' % toks[0].line)
+            j = b2s[l] + 1
+            # ... but never in the middle of a statement of the new text: advance to the next statement boundary
+            while j < len(src_toks) and j > 0 and stxt[j - 1] not in (';', '{', '}'): j += 1
+            displaced += 1
         place.setdefault(j, []).extend(toks)
     mirror_lines = mirror_text.split('\n')
     out = []
